@@ -12,7 +12,8 @@ pub const EMPTY_QUERIES: [&str; 6] = ["", " ", "-", "\0", ", ", "'"];
 
 pub fn menu4(l: L) -> Vec<(String, usize)> {
     let s = sym(l);
-    vec![(s.c.to_string(), 9), (s.v.to_string(), 9), (s.c.to_string(), 5), (format!("{} {}", s.v, s.c), 7)]
+    // equal ratings where title order ("a" < "a b" < "b") and length order (one word before two) disagree
+    vec![(s.c.to_string(), 9), (s.v.to_string(), 9), (s.c.to_string(), 5), (format!("{} {}", s.v, s.c), 9)]
 }
 
 pub fn menu10(l: L) -> Vec<(String, usize)> {
@@ -196,7 +197,15 @@ impl Sys for HistSys {
             }
         }
         cx.tr(1);
-        Some(super::c10::canon(&st))
+        let mut k = super::c10::canon(&st);
+        k.push(0xf7);
+        for r in &model {
+            k.extend_from_slice(&(r.0 as u32).to_le_bytes());
+            k.extend_from_slice(r.1.as_bytes());
+            k.extend_from_slice(&(r.2 as u64).to_le_bytes());
+        }
+        k.extend_from_slice(&(limit as u64).to_le_bytes());
+        Some(k)
     }
 }
 
